@@ -15,7 +15,7 @@ use futures::StreamExt;
 pub static DEF: PropDef = PropDef {
     id: "C20",
     level: "exploration",
-    rule: "each case: one input (valid / truncated / mid-document / ids swapped for other known or unknown ids — size fields and alignment are never corrupted, see assumptions; occasionally 64 KiB-1, 64 KiB, 64 KiB+1 and ~200 KiB long to cross the transfer buffer) x buffered-master subset x async delivery schedules driven on a single-threaded executor: everything at once, two halves, k bytes per read, 1 byte per read, random partitions, ALL 2^(n-1) partitions for inputs of <= 8 (quick) / <= 10 (thorough) bytes, each with Poll::Pending (self-waking) every k-th poll. TagIteratorAsync::next() is awaited until None (then 3 more times: must stay None); item values and last_emitted_tag_offset() after every item are compared with the blocking TagIterator over the same bytes, the final error too; the Stream adapter (into_stream) is collected and compared as well. Every 500th case is a default-limit probe: a master declaring a size around 4*10^9 / 2^32 (5-8 byte size field) must be accepted or rejected by the adapter exactly as by the blocking iterator. A schedule is classified 'starved' by replaying it against the real blocking iterator through a gated source (one delivery, then one next(), exactly like the adapter): starved iff the iterator sees end-of-file (Ok(0)) while data is still outstanding; divergences on starved schedules carry the single signature C20/starved-read (known limitation of the adapter), divergences on non-starved schedules get specific signatures. distinct = (schedule class, whether a read boundary splits a tag, pending pattern, buffered?); non-trivial iff the schedule has >= 2 reads.",
+    rule: "each case: one input (valid / truncated / mid-document / ids swapped for other known or unknown ids — size fields and alignment are never corrupted, see assumptions; occasionally 64 KiB-1, 64 KiB, 64 KiB+1 and ~200 KiB long to cross the transfer buffer, and window-edge documents: a few small items, then one big element ending at 65536*k-2 .. 65536*k+1 for k = 1..5, inside known- or unknown-size masters that may be buffered) x buffered-master subset x async delivery schedules driven on a single-threaded executor: everything at once, two halves, k bytes per read, 1 byte per read, random partitions, ALL 2^(n-1) partitions for inputs of <= 8 (quick) / <= 10 (thorough) bytes, each with Poll::Pending (self-waking) every k-th poll. TagIteratorAsync::next() is awaited until None (then 3 more times: must stay None); item values and last_emitted_tag_offset() after every item are compared with the blocking TagIterator over the same bytes, the final error too; the Stream adapter (into_stream) is collected and compared as well. Every 500th case is a default-limit probe: a master declaring a size around 4*10^9 / 2^32 (5-8 byte size field) must be accepted or rejected by the adapter exactly as by the blocking iterator. A schedule is classified 'starved' by replaying it against the real blocking iterator through a gated source (one delivery, then one next(), exactly like the adapter): starved iff the iterator sees end-of-file (Ok(0)) while data is still outstanding; divergences on starved schedules carry the single signature C20/starved-read (known limitation of the adapter), divergences on non-starved schedules get specific signatures. distinct = (schedule class, whether a read boundary splits a tag, pending pattern, buffered?); non-trivial iff the schedule has >= 2 reads.",
     assumptions: &["byte-level mutations are not used: the adapter cannot change the 4 GB default limit and a misaligned parse could legitimately allocate gigabytes per worker", "inputs whose limited pre-screen (16 MiB) reports InvalidTagSize are skipped: the adapter cannot change the 4 GB default limit and a legitimate GB allocation per worker would exhaust the box", "zero-length reads in the middle of the data are not injected: Ok(0) means end of stream for an AsyncRead"],
     cases_quick: 60_000,
     cases_thorough: 800_000,
@@ -168,6 +168,56 @@ fn run_limit_probe(c: &mut Case) {
     c.nontrivial(mix(hash_str("limit-probe"), v));
 }
 
+/// Documents laid out against the 64 KiB transfer buffer: a few small items, then one big Binary element whose end
+/// (or, for a trailing unknown-size master, the end of the input) falls on 65536*k + d for small k and d in -2..=1.
+/// Whether a schedule is starved is still decided by the gated replay with nominal 64 KiB reads; these documents only
+/// make the window edges common.
+fn gen_window_doc(rng: &mut crate::prng::Rng) -> Input {
+    use crate::refcodec::{enc_tree, to_rnodes, Node, SizeOpt};
+    let spec = crate::gen::z_test();
+    const EBML: u64 = 0x1a45dfa3;
+    const SEG: u64 = 0x18538067;
+    const CLU: u64 = 0x1F43B675;
+    let k = rng.urange(1, 5);
+    let d: i64 = *rng.pick(&[-2i64, -1, -1, 0, 0, 1]);
+    let target = (65536 * k) as i64 + d;
+    let marker: Vec<u8> = vec![0x5A; 8];
+    let build = |big: usize, rng_choices: &(usize, bool, bool, usize)| -> Vec<Node> {
+        let (n_prefix, seg_unknown, clu_unknown, n_small) = *rng_choices;
+        let mut roots: Vec<Node> = (0..n_prefix).map(|_| Node::master(EBML, vec![])).collect();
+        let mut clu_children: Vec<Node> = (0..n_small).map(|i| Node::leaf(Item::U(0x4100, i as u64))).collect();
+        let mut payload = marker.clone();
+        payload.resize(big.max(8), 0x33);
+        clu_children.push(Node::leaf(Item::B(0xa1, payload)));
+        let mut clu = Node::master(CLU, clu_children);
+        if clu_unknown {
+            clu.opt = SizeOpt::Unknown;
+        }
+        let mut seg = Node::master(SEG, vec![Node::leaf(Item::U(0x83, 1)), clu]);
+        if seg_unknown {
+            seg.opt = SizeOpt::Unknown;
+        }
+        roots.push(seg);
+        roots
+    };
+    let choices = (rng.urange(0, 2), rng.chance(1, 2), rng.chance(1, 3), rng.urange(0, 3));
+    // two rounds: the size-field width of the big element may change once
+    let mut big = 1000usize;
+    let mut out = (Vec::new(), Vec::new(), Vec::new());
+    for _ in 0..3 {
+        let tree = build(big, &choices);
+        let (bytes, lay) = enc_tree(&to_rnodes(&tree));
+        let end = lay.iter().find(|l| l.id == 0xa1).map(|l| l.end as i64).unwrap_or(0);
+        let delta = target - end;
+        out = (bytes, lay, tree);
+        if delta == 0 {
+            break;
+        }
+        big = (big as i64 + delta).max(8) as usize;
+    }
+    Input { spec, tree: out.2, bytes: out.0, lay: out.1, kind: format!("window-edge/k{}{:+}", k, d), valid: true, mutations: vec![] }
+}
+
 fn run(c: &mut Case) {
     if c.idx % 500 == 77 {
         run_limit_probe(c);
@@ -189,6 +239,13 @@ fn run(c: &mut Case) {
         inp.mutations = k;
         inp.kind = "id-mutated".into();
         inp.valid = false;
+    }
+    let window = !big && (c.rng.chance(1, 300) || (c.tier == Tier::Thorough && c.rng.chance(1, 1500)));
+    if window {
+        inp = gen_window_doc(&mut c.rng);
+        inp.spec.install();
+        c.count("inputs_over_64k");
+        c.count("window_edge_inputs");
     }
     if big {
         // grow a valid document past the 64 KiB transfer buffer by appending Void elements at root level... simpler: repeat the document
